@@ -1,8 +1,15 @@
 import TracklibVerif.Model.Grid
 import TracklibVerif.Gen.Geometry
+import TracklibVerif.Gen.SpatialIndex
 /-! Tie for C08 (geometry helpers of the spatial index): the definitions translated from the CURRENT
 `tracklib/util/geometry.py` (`cartesienne`, `__eval`, `isSegmentIntersects`) equal the hand-written
-`TV.Grid.cartesienne / evalLine / isSegmentIntersects` on all arguments. Bare operation classes only. -/
+`TV.Grid.cartesienne / evalLine / isSegmentIntersects` on all arguments. Bare operation classes only.
+
+Also tied: `SpatialIndex.__getCell` and `SpatialIndex.groundDistanceToUnits` of the CURRENT
+`tracklib/core/spatial_index.py`. The model divides with the plain `/` (no `ZeroDivisionError` branch): the equalities
+are stated for cell sizes `dX`, `dY` that are not `== 0`, and `tie_getCell_ok` says without that hypothesis that
+whenever the code returns, it returns the model's value. `groundDistanceToUnits` adds the Python literal `1`
+(`(1 : α)`), the model the converted integer `((1 : Int) : α)`: `h1` says they are the same number. -/
 namespace TV.Tie.C08
 open TV TV.Py
 set_option linter.unusedSectionVars false
@@ -36,4 +43,65 @@ theorem tie_isSegmentIntersects_short1 (l1 l2 : List α) (h : l1.length < 4) :
   | [_, _, _], _ => rfl
 
 end
+section
+variable {α : Type} [Add α] [Sub α] [Mul α] [Div α] [Neg α] [LT α] [LE α]
+  [DecidableLT α] [DecidableLE α] [IntCast α] [OfNat α 0] [OfNat α 1]
+
+/-- `__getCell(coord)`: `None` outside the closed extent, else the fractional cell indices -/
+theorem tie_getCell (ix : Grid.Index α) (p : α × α) (hx : ¬ Py.feq ix.dX 0 = true) (hy : ¬ Py.feq ix.dY 0 = true) :
+    Gen.SpatialIndex.SpatialIndex_getCell ix.xmin ix.xmax ix.ymin ix.ymax ix.dX ix.dY p.1 p.2 = .ok (Grid.getCell ix p) := by
+  simp only [Gen.SpatialIndex.SpatialIndex_getCell, Grid.getCell, Py.fdiv, ite_neg' hx, ite_neg' hy, bind_ok]
+  by_cases h1 : p.1 < ix.xmin
+  · simp [h1]
+  · by_cases h2 : ix.xmax < p.1
+    · simp [h2]
+    · by_cases h3 : p.2 < ix.ymin
+      · simp [h1, h2, h3]
+      · by_cases h4 : ix.ymax < p.2
+        · simp [h1, h2, h4]
+        · simp [h1, h2, h3, h4]
+
+/-- `groundDistanceToUnits(distance)` -/
+theorem tie_groundDistanceToUnits (fl : α → Int) (ix : Grid.Index α) (distance : α)
+    (h1 : ((1 : Int) : α) = (1 : α)) (hz : ¬ Py.feq (Grid.pyMin ix.dX ix.dY) 0 = true) :
+    Gen.SpatialIndex.SpatialIndex_groundDistanceToUnits fl ix.dX ix.dY distance = .ok (Grid.groundDistanceToUnits fl ix distance) := by
+  have hz' : ¬ Py.feq (Py.fmin ix.dX ix.dY) 0 = true := hz
+  simp only [Gen.SpatialIndex.SpatialIndex_groundDistanceToUnits, Grid.groundDistanceToUnits, Py.fdiv, ite_neg' hz', bind_ok, h1]
+  rfl
+end
+section
+variable {α : Type} [Add α] [Sub α] [Mul α] [Div α] [Neg α] [LT α] [LE α]
+  [DecidableLT α] [DecidableLE α] [IntCast α] [OfNat α 0] [OfNat α 1]
+/-- whenever `__getCell` returns (no `ZeroDivisionError`), it returns the model's value -/
+theorem tie_getCell_ok (ix : Grid.Index α) (p : α × α) (v : Option (α × α))
+    (h : Gen.SpatialIndex.SpatialIndex_getCell ix.xmin ix.xmax ix.ymin ix.ymax ix.dX ix.dY p.1 p.2 = .ok v) :
+    v = Grid.getCell ix p := by
+  by_cases hx : Py.feq ix.dX 0 = true
+  · simp only [Gen.SpatialIndex.SpatialIndex_getCell, Py.fdiv, ite_pos' hx, bind_error] at h
+    simp only [Grid.getCell]
+    by_cases h1 : p.1 < ix.xmin
+    · simp [h1] at h ⊢; exact h.symm
+    · by_cases h2 : ix.xmax < p.1
+      · simp [h2] at h ⊢; exact h.symm
+      · by_cases h3 : p.2 < ix.ymin
+        · simp [h1, h2, h3] at h ⊢; exact h.symm
+        · by_cases h4 : ix.ymax < p.2
+          · simp [h1, h2, h4] at h ⊢; exact h.symm
+          · simp [h1, h2, h3, h4] at h
+  · by_cases hy : Py.feq ix.dY 0 = true
+    · simp only [Gen.SpatialIndex.SpatialIndex_getCell, Py.fdiv, ite_neg' hx, ite_pos' hy, bind_ok, bind_error] at h
+      simp only [Grid.getCell]
+      by_cases h1 : p.1 < ix.xmin
+      · simp [h1] at h ⊢; exact h.symm
+      · by_cases h2 : ix.xmax < p.1
+        · simp [h2] at h ⊢; exact h.symm
+        · by_cases h3 : p.2 < ix.ymin
+          · simp [h1, h2, h3] at h ⊢; exact h.symm
+          · by_cases h4 : ix.ymax < p.2
+            · simp [h1, h2, h4] at h ⊢; exact h.symm
+            · simp [h1, h2, h3, h4] at h
+    · rw [tie_getCell ix p hx hy] at h
+      exact (Except.ok.inj h).symm
+end
+
 end TV.Tie.C08
